@@ -150,6 +150,31 @@ class SymRun(BaseRun):
     def const(self, v):
         return S(v)
 
+    def abstract(self, name, expr, nonneg_root=False):
+        """a fresh symbol standing for `expr` (definitional link, used lazily by the prover): goals about
+        code that merely receives the value do not have to carry the expression around.
+        nonneg_root: the symbol is the non-negative square root of expr."""
+        v = self.ctx.input(name, "real")
+        e = S(expr)
+        core.use(e)
+        if nonneg_root:
+            self.ctx.add_dom(v.n >= 0, simple=True)
+            self.ctx.add_dom((v * v == e).t)
+            self.ctx.links.append((v.n, 2, e))
+        else:
+            self.ctx.add_dom((v == e).t)
+            self.ctx.links.append((v.n, 1, e))
+        # numeric shadow of the abstraction symbol
+        import mpmath as mp
+
+        for k, sh in enumerate(self.ctx.shadows):
+            try:
+                val = self.ctx.num(e.n, k) / self.ctx.num(e.d, k)
+                sh[name] = mp.sqrt(val) if nonneg_root else val
+            except Exception:
+                sh[name] = None
+        return v
+
 
 class ConcRun(BaseRun):
     """concrete evaluation on the real classes with 50-digit mpmath scalars"""
@@ -205,6 +230,11 @@ class ConcRun(BaseRun):
 
     def const(self, v):
         return self.conv(v) if not isinstance(v, (int,)) else v
+
+    def abstract(self, name, expr, nonneg_root=False):
+        if nonneg_root:
+            return self.lib.sqrt(expr)
+        return expr
 
 
 class F64Run(ConcRun):
